@@ -129,8 +129,9 @@ def _caret(t):
     return M.T(t.kind, t.a, tuple(_caret(x) for x in t.sub), t.meta)
 
 
-def closure_env(prog, parent, clo):
-    """Operands the parent passes as captures of `clo`, positional in the parent."""
+def closure_env(prog, parent, clo, transparent=True):
+    """Operands the parent passes as captures of `clo`, positional in the parent.
+    With transparent=False, clones / conversions on the way are kept visible."""
     pv = prog.prov(parent)
     for bb, b in enumerate(parent.blocks):
         for st in b["stmts"]:
@@ -138,7 +139,7 @@ def closure_env(prog, parent, clo):
                 t = pv.of_rvalue(st["rv"])
                 if t.kind == "aggr" and str(t.a) == "closure:" + clo.path:
                     # the parent's parameters are written ^N so that they cannot be confused with the closure's own $N
-                    return [_caret(positional(M.peel(s))) for s in t.sub]
+                    return [_caret(positional(M.peel(s, transparent=transparent))) for s in t.sub]
     return None
 
 
